@@ -2,7 +2,6 @@ package main
 
 import (
 	"fmt"
-	"os"
 	"go/token"
 	"go/types"
 	"sort"
@@ -291,28 +290,6 @@ func checkC40(c *Ctx, r *Report) {
 	}
 	eng := newPtsEngine(m, nil)
 	eng.mark = func(v ssa.Value) bool { _, ok := heldField(v); return ok }
-	type judged struct {
-		held   []string
-		params []*ssa.Parameter
-	}
-	judge := func(ref ssa.Value) judged {
-		var j judged
-		seenH := map[string]bool{}
-		for o := range eng.pts(ref, nil) {
-			if o.mark {
-				if w, ok := heldField(o.v); ok && !seenH[w] {
-					seenH[w] = true
-					j.held = append(j.held, w)
-				}
-				continue
-			}
-			if p, ok := o.v.(*ssa.Parameter); ok && o.ctx == nil {
-				j.params = append(j.params, p)
-			}
-		}
-		sort.Strings(j.held)
-		return j
-	}
 	libReadOnly := func(n string) bool {
 		for _, p := range []string{"(*sync.RWMutex).", "(*sync.Mutex).", "context.", "(context.", "fmt.", "strings.", "strconv.", "errors.", "sync/atomic.Load",
 			"(*go.etcd.io/etcd/client/v3.Client).Get", "(go.etcd.io/etcd/client/v3.KV).Get", "encoding/json.Marshal", "(*log/slog.Logger).", "log/slog.", "time.", "(time.",
@@ -323,13 +300,7 @@ func checkC40(c *Ctx, r *Report) {
 		}
 		return false
 	}
-	type wsite struct {
-		fn   *ssa.Function
-		in   ssa.Instruction
-		ref  ssa.Value
-		what string
-	}
-	var sites []wsite
+	var sites []refSite
 	for f := range all {
 		for _, b := range f.Blocks {
 			for _, in := range b.Instrs {
@@ -338,15 +309,15 @@ func checkC40(c *Ctx, r *Report) {
 					if _, local := x.Addr.(*ssa.Alloc); local {
 						continue
 					}
-					sites = append(sites, wsite{f, in, x.Addr, "store"})
+					sites = append(sites, refSite{f, in, x.Addr, "store"})
 				case *ssa.MapUpdate:
-					sites = append(sites, wsite{f, in, x.Map, "map update"})
+					sites = append(sites, refSite{f, in, x.Map, "map update"})
 				case ssa.CallInstruction:
 					cc := x.Common()
 					if bi, ok := cc.Value.(*ssa.Builtin); ok {
 						switch bi.Name() {
 						case "delete", "clear", "copy":
-							sites = append(sites, wsite{f, in, cc.Args[0], bi.Name()})
+							sites = append(sites, refSite{f, in, cc.Args[0], bi.Name()})
 						}
 						continue
 					}
@@ -378,97 +349,16 @@ func checkC40(c *Ctx, r *Report) {
 						if _, isFn := a.Type().Underlying().(*types.Signature); isFn {
 							continue
 						}
-						sites = append(sites, wsite{f, in, a, "argument of library function " + n})
+						sites = append(sites, refSite{f, in, a, "argument of library function " + n})
 					}
 				}
 			}
 		}
 	}
-	var writes []string
-	paramWrites := map[*ssa.Function]map[int]bool{}
-	markParam := func(p *ssa.Parameter) bool {
-		f := p.Parent()
-		for i, q := range f.Params {
-			if q == p {
-				if paramWrites[f] == nil {
-					paramWrites[f] = map[int]bool{}
-				}
-				if !paramWrites[f][i] {
-					paramWrites[f][i] = true
-					return true
-				}
-			}
-		}
-		return false
-	}
-	dbg := os.Getenv("KAFCHECK_C40_DEBUG")
-	for _, w := range sites {
-		j := judge(w.ref)
-		if dbg != "" && strings.Contains(w.fn.String(), dbg) {
-			fmt.Fprintf(os.Stderr, "DEBUG %s %s %s ref=%s held=%v params=%v\n", w.fn.Name(), m.Pos(w.in.Pos()), w.what, describe(w.ref), j.held, j.params)
-			for o := range eng.pts(w.ref, nil) {
-				fmt.Fprintf(os.Stderr, "    obj %s mark=%v ctx=%v\n", describe(o.v), o.mark, o.ctx != nil)
-			}
-		}
-		for _, h := range j.held {
-			writes = append(writes, fmt.Sprintf("%s: %s in %s can reach memory held in %s", m.Pos(w.in.Pos()), w.what, w.fn.Name(), h))
-		}
-		for _, p := range j.params {
-			markParam(p)
-		}
-	}
-	// callers of functions that write through a parameter
-	nArgs := 0
-	reported := map[string]bool{}
-	for changed := true; changed; {
-		changed = false
-		for f := range all {
-			for _, call := range callsIn(f) {
-				cc := call.Common()
-				var targets []*ssa.Function
-				if cc.IsInvoke() {
-					targets = implementers(m, cc.Value.Type(), cc.Method)
-				} else if g, _ := calleeOf(cc); g != nil {
-					targets = []*ssa.Function{g}
-				}
-				args := cc.Args
-				if cc.IsInvoke() {
-					args = append([]ssa.Value{cc.Value}, args...)
-				}
-				for _, g := range targets {
-					for ai, a := range args {
-						if !paramWrites[g][ai] {
-							continue
-						}
-						nArgs++
-						j := judge(a)
-						if dbg != "" && strings.Contains(g.String(), dbg) {
-							fmt.Fprintf(os.Stderr, "DEBUG call %s -> %s arg %d = %s held=%v params=%v\n", f.Name(), g.Name(), ai, describe(a), j.held, j.params)
-							for o := range eng.pts(a, nil) {
-								fmt.Fprintf(os.Stderr, "    obj %s (%T) mark=%v ctx=%v\n", describe(o.v), o.v, o.mark, o.ctx != nil)
-							}
-						}
-						for _, h := range j.held {
-							msg := fmt.Sprintf("%s: %s passes memory held in %s to %s, which writes through that parameter", m.Pos(call.Pos()), f.Name(), h, g.Name())
-							if !reported[msg] {
-								reported[msg] = true
-								writes = append(writes, msg)
-							}
-						}
-						for _, p := range j.params {
-							if markParam(p) {
-								changed = true
-							}
-						}
-					}
-				}
-			}
-		}
-	}
+	writes, nArgs := judgeRefSites(m, eng, all, sites, func(v ssa.Value) string { w, _ := heldField(v); return "memory held in " + w }, "can reach")
 	r.Extra["write_sites_judged"] = len(sites)
 	r.Extra["arguments_to_writing_callees_judged"] = nArgs
 	r.Extra["values_inspected"] = eng.Visited
-	sort.Strings(writes)
 	if len(writes) == 0 {
 		r.ok("C40.O2", "no reachable write can land in memory held by the store", "", fmt.Sprintf("%d reachable functions, %d write sites, %d values inspected", len(all), len(sites), eng.Visited))
 	} else {
